@@ -30,6 +30,9 @@ SCRATCH_ROOT = os.environ.get("VERIF_SCRATCH", "/var/tmp")
 IGNORED_KANI_CLASSES = [
     re.compile(r"^NaN on "),
     re.compile(r"^arithmetic overflow on floating-point"),
+    # CBMC's C-library models of exp/log/pow set errno; under a frame contract that shows up as a write to
+    # *__errno_location().  The C errno is not part of Rust's semantics (std never reads it after these calls).
+    re.compile(r"__errno_location"),
 ]
 
 
@@ -236,9 +239,8 @@ class KaniSession:
                 if hit is None:
                     raise Undecided("lost anchor: fn %s in %s" % (c["fn"], rel))
                 indent = re.match(r"^\s*", lines[hit]).group(0)
-                attrs = [indent + "#[cfg_attr(kani, %s)]" % a for a in c["attrs"]]
-                # NB: inserting shifts later lines of this file; recorded so reports can be mapped back
-                lines[hit:hit] = attrs
+                # the attributes go on the SAME line as the `fn` keyword: no line of the original moves
+                lines[hit] = indent + " ".join("#[cfg_attr(kani, %s)]" % a for a in c["attrs"]) + " " + lines[hit].lstrip()
             open(p, "w").write("\n".join(lines))
 
     def run(self, harnesses, jobs=8, timeout=1800, extra=()):
